@@ -883,7 +883,7 @@ def classify(diffs, u, t0, doc):
             return "foot-comment-moves-past-next-sibling"
     if kinds == {"comment-lost"} and (u["kind"] == "delete" or (u["kind"] == "assign" and t0[P]["a"][0] in ("map", "seq"))):
         lines = doc.split("\n")
-        span = [e["pos"][0] for q, e in t0.items() if is_under(P, q) and e["a"][0] in ("scalar", "alias")]
+        span = [e["pos"][0] for q, e in t0.items() if is_under(P, q) and e["pos"][0] > 0]
         ok = bool(span)
         strip = lambda b: re.sub(r"^(-\s*)+", "", b.strip())
         for x in diffs:
